@@ -47,18 +47,20 @@ CHECKS = {
         "scheme, root path) is presented as WSGI environ and as ASGI scope + messages; (a) a view echoes the entire request view incl. "
         "body/json/form/stream in a generated order and uploaded files, (b) every response recipe is used as app and as view result, (c) "
         "Router/Subpaths/Hosts compositions, Files/Pages with Range and conditional headers, decorators and middleware stacks are "
-        "dispatched; echo structures, status, header multisets, body bytes, escaping exception classes and the dispatched leaves must agree.",
+        "dispatched, (d) files whose mtime and ctime are set apart through a harness-owned stat clock are fetched and then revalidated with the "
+        "validators the server handed out; echo structures, status, header multisets, body bytes, escaping exception classes and the dispatched leaves must agree.",
         "Sanctioned/normalised: ASGI SSE Connection header, random byteranges boundary, wall-clock second of cookie Expires, reason phrase, chunking. "
         "No underscores in header names; valid UTF-8 paths.",
     ),
     "C05": (
         "fault_enumeration",
-        "Hypothesis response recipes x enumerated fault points (disconnect after every k-th send, close after every k-th item, producer exceptions) judged by prefix-closed protocol automata of strict WSGI/ASGI gateways",
+        "Hypothesis response recipes + enumerated file-response grid x enumerated fault points (disconnect after every k-th send, close after every k-th item, producer exceptions) judged by prefix-closed protocol automata of strict WSGI/ASGI gateways",
         "Generated recipes for all eight response classes (status codes incl. unassigned, header sets/operations, cookies, text/bytes/JSON, "
         "iterables with empty chunks, files with non-ASCII names, Range requests incl. rejected ones, HEAD) are sent through strict gateways: "
         "fault-free runs must be complete legal sequences; then for EVERY k the ASGI client disconnects after the k-th send (send swallowing "
         "or raising OSError) and the WSGI server closes the iterable after k items, and streaming producers raise at generated steps; what was "
-        "emitted must be a legal prefix. All status codes 100..599 are swept in the thorough tier.",
+        "emitted - including anything sent after the client has gone - must be a legal prefix. An enumerated grid covers the file response (Range shape x "
+        "method x If-Range x zero-copy extension x size/chunk). All status codes 100..599 are swept in the thorough tier.",
         "Unrenderable constructor arguments and hop-by-hop header names are caller errors and not generated.",
     ),
     "C06": (
